@@ -33,12 +33,20 @@ func runC11(c *Ctx) {
 				}
 				n++
 				fk := ssaFuncKey(fn)
-				if fk != "protocol.(*Protocol).handleMessage" {
-					c.Bad("handler-call-site", fk, ci.Pos(), "MessageHandlerFunc is invoked outside Protocol.handleMessage: a message can reach the application without the state-machine check")
+				if fk != "protocol.(*Protocol).handleMessage" && fk != "protocol.(*Protocol).recvLoop" && !ownedBy(fn, []string{"protocol.(*Protocol).recvLoop"}, 1) {
+					c.Bad("handler-call-site", fk, ci.Pos(), "MessageHandlerFunc is invoked outside recvLoop's message handling: a message can reach the application without the state-machine check")
 					continue
 				}
 				msg := desc(cc.Args[0])
 				want := "call:protocol.(*Protocol).transitionState(p0," + msg + ") == nil"
+				// the accepting branch of the transitionState call made on this very message value
+				for _, cj := range allCalls(fn) {
+					if calleeName(cj.Common()) == "protocol.(*Protocol).transitionState" && len(cj.Common().Args) == 2 && cj.Common().Args[1] == cc.Args[0] && cj.Value() != nil {
+						if okF, _ := factsForValue(fn, cj.Value()); okF != "" {
+							want = okF
+						}
+					}
+				}
 				v := c.mustPass(fn, []ssa.Instruction{ci.(ssa.Instruction)}, func(f string) bool { return f == want })
 				c.Check(v[0].OK, "handler-call-site", fk, ci.Pos(), "handler call dominated by "+want, "the handler is reachable without transitionState having accepted this message ("+v[0].Witness+")")
 			}
@@ -47,9 +55,27 @@ func runC11(c *Ctx) {
 	c.Floor("handler-call-site", 1)
 
 	// (2)+(3)+(4) recvLoop
-	hm := c.SSAFunc("protocol", "Protocol.handleMessage")
+	rl := c.SSAFunc("protocol", "Protocol.recvLoop")
+	var hm *ssa.Function
+	if o := c.FuncObjOpt("protocol", "Protocol.handleMessage"); o != nil {
+		hm = c.SSAOf(o)
+	}
 	var hmCalls []ssa.CallInstruction
+	inlineForm := false
+	if hm == nil {
+		// handleMessage folded into recvLoop: the unit is transitionState(msg) followed by the handler call, and the
+		// handling error is whatever value merges their results
+		for _, ci := range allCalls(rl) {
+			if calleeName(ci.Common()) == "protocol.(*Protocol).transitionState" {
+				hmCalls = append(hmCalls, ci)
+				inlineForm = true
+			}
+		}
+	}
 	for _, p := range c.W.Pkgs {
+		if hm == nil {
+			break
+		}
 		for _, fn := range c.pkgFuncs(relPkg(p.PkgPath)) {
 			for _, ci := range allCalls(fn) {
 				if ci.Common().StaticCallee() == hm {
@@ -63,9 +89,11 @@ func runC11(c *Ctx) {
 			}
 		}
 	}
-	rl := c.SSAFunc("protocol", "Protocol.recvLoop")
 	if len(hmCalls) == 0 {
 		c.Undecided("recvLoop does not call handleMessage")
+	}
+	if inlineForm {
+		c.Ok("handle-message-caller", "protocol.(*Protocol).recvLoop:inline", rl.Pos(), "messages are checked and handled in recvLoop itself")
 	}
 	for _, ci := range hmCalls {
 		arg := desc(ci.Common().Args[1])
@@ -91,6 +119,12 @@ func runC11(c *Ctx) {
 		for _, ef := range edgeFacts(rl) {
 			if ef.Fact == errFact {
 				errSucc = append(errSucc, ef.From.Succs[ef.Succ])
+			}
+		}
+		if inlineForm {
+			_, non := handlingErrorEdges(rl)
+			for _, e := range non {
+				errSucc = append(errSucc, e.from.Succs[e.succ])
 			}
 		}
 		if len(errSucc) == 0 {
@@ -232,10 +266,16 @@ func runC11(c *Ctx) {
 	var got []string
 	for _, b := range ts.Blocks {
 		if r, ok := b.Instrs[len(b.Instrs)-1].(*ssa.Return); ok {
-			d := desc(r.Results[0])
-			got = append(got, d)
-			if d != "global:protocol.ErrProtocolShuttingDown" && !strings.HasPrefix(d, "<-makechan(") {
-				okTS = false
+			vals := []ssa.Value{returnedValue(r, 0)}
+			if ph, isPhi := vals[0].(*ssa.Phi); isPhi {
+				vals = ph.Edges // a result variable: each value it can hold
+			}
+			for _, v := range vals {
+				d := desc(v)
+				got = append(got, d)
+				if d != "global:protocol.ErrProtocolShuttingDown" && !strings.HasPrefix(d, "<-makechan(") {
+					okTS = false
+				}
 			}
 		}
 	}
@@ -463,4 +503,76 @@ func (c *Ctx) setStateKey() string {
 		return "protocol.(*Protocol).stateLoop$1"
 	}
 	return found[0]
+}
+
+type cfgEdge struct {
+	from *ssa.BasicBlock
+	succ int
+}
+
+// handlingErrorEdges: the branch edges of recvLoop on which the outcome of handling a message is known: nil (handled)
+// and non-nil (failed). The outcome is the result of handleMessage, or — when that is folded into recvLoop — the value
+// that merges the results of transitionState and of the handler call.
+func handlingErrorEdges(rl *ssa.Function) (nilEdges, nonNilEdges []cfgEdge) {
+	final := map[ssa.Value]bool{}
+	for _, ci := range allCalls(rl) {
+		cc := ci.Common()
+		if ci.Value() == nil {
+			continue
+		}
+		if calleeName(cc) == "protocol.(*Protocol).handleMessage" || !cc.IsInvoke() && strings.HasSuffix(desc(cc.Value), ".config.MessageHandlerFunc") {
+			final[ci.Value()] = true
+		}
+	}
+	for changed := true; changed; {
+		changed = false
+		for _, in := range fnInstrs(rl) {
+			ph, ok := in.(*ssa.Phi)
+			if !ok || final[ph] {
+				continue
+			}
+			for _, e := range ph.Edges {
+				if final[e] {
+					final[ph] = true
+					changed = true
+				}
+			}
+		}
+	}
+	// a handler result that only feeds a phi is tested through the phi
+	tested := map[ssa.Value]bool{}
+	for v := range final {
+		if _, isPhi := v.(*ssa.Phi); isPhi {
+			tested[v] = true
+			continue
+		}
+		feedsPhi := false
+		for _, r := range *v.Referrers() {
+			if ph, ok := r.(*ssa.Phi); ok && final[ph] {
+				feedsPhi = true
+			}
+		}
+		if !feedsPhi {
+			tested[v] = true
+		}
+	}
+	for _, b := range rl.Blocks {
+		iff, ok := b.Instrs[len(b.Instrs)-1].(*ssa.If)
+		if !ok {
+			continue
+		}
+		bo, ok := iff.Cond.(*ssa.BinOp)
+		if !ok || !isNilConst(bo.Y) || !tested[bo.X] {
+			continue
+		}
+		switch bo.Op.String() {
+		case "==":
+			nilEdges = append(nilEdges, cfgEdge{b, 0})
+			nonNilEdges = append(nonNilEdges, cfgEdge{b, 1})
+		case "!=":
+			nilEdges = append(nilEdges, cfgEdge{b, 1})
+			nonNilEdges = append(nonNilEdges, cfgEdge{b, 0})
+		}
+	}
+	return
 }
